@@ -220,6 +220,15 @@ func chkJSON(v interface{}) func([]byte) string {
 	return chkRaw(want)
 }
 
+var jeRawDocs = []string{
+	"{\n  \"a\": 1,\n  \"b\": [1, 2]\n}",
+	"[\r\n\t1 ,\t2\r\n]",
+	" {\"k\" : \"v with \\n escape\" } \n",
+	"\n\n\"text\"\n",
+	"{\"nested\":{\"deep\":[{\"x\":null}\n,\ntrue]}}",
+	"12",
+}
+
 var jeTimes = []time.Time{
 	time.Unix(0, 0).UTC(),
 	time.Date(2024, 2, 29, 23, 59, 59, 999999999, time.UTC),
@@ -457,6 +466,13 @@ func (r *jeRun) scalar(id int, key string) (zap.Field, string) {
 		if len(v.B) > 200 {
 			v.B = v.B[:200]
 		}
+		if r.rng.Intn(3) == 0 {
+			// pre-encoded JSON handed over as is: pretty-printed, with line breaks and odd spacing; the entry must
+			// still be one line holding the same value
+			raw := json.RawMessage(jeRawDocs[r.rng.Intn(len(jeRawDocs))])
+			set("", chkJSON(raw))
+			return zap.Reflect(key, raw), "Reflect(json.RawMessage)"
+		}
 		set("", chkJSON(v))
 		return zap.Reflect(key, v), "Reflect(struct)"
 	case 22:
@@ -627,7 +643,11 @@ func (r *jeRun) field(n *pnode) zap.Field {
 		return zap.Error(nil)
 	case "E":
 		r.faults++
-		switch r.rng.Intn(5) {
+		switch r.rng.Intn(6) {
+		case 5:
+			set("Error", chkAnyString())
+			r.descr = append(r.descr, "Reflect(truncated json.RawMessage)")
+			return zap.Reflect(key, json.RawMessage([]string{`{"a":`, "{\"a\": [1, 2\n", `nul`, "{\"k\": \"v\"}\n}"}[r.rng.Intn(4)]))
 		case 0:
 			set("Error", chkAnyString())
 			r.descr = append(r.descr, "Reflect(chan)")
